@@ -22,43 +22,32 @@ type RedirectFlags struct {
 	EnableAll  bool
 }
 
-// readMessage parses and defragments a packet from a Transport. It returns
-// at most the bytes that have been reported by the packet
-func readMessage(in transport.Transport) (pt int, n int, msg []byte, err error) {
-	fragment := false
-	index := 0
-	buf := make([]byte, 4096)
+// maxPacketSize bounds what is buffered for one packet: the largest packet of the
+// protocol is a data packet with a 16 bit payload length
+const maxPacketSize = 128 * 1024
 
+var errCorruptHeader = errors.New("packet header is corrupt")
+
+// readMessage returns the next packet from a Transport. Packet boundaries are taken
+// from the length field in the packet header only: one transport read can carry a
+// part of a packet, exactly one packet or several packets. Bytes that follow the
+// returned packet stay in pending and are used by the next call.
+func readMessage(in transport.Transport, pending *[]byte) (pt int, n int, msg []byte, err error) {
 	for {
-		size, pkt, err := in.ReadPacket()
-		if err != nil {
+		packetType, sz, pkt, err := readHeader(*pending)
+		if err == nil {
+			*pending = (*pending)[sz:]
+			return int(packetType), int(sz), pkt, nil
+		}
+		if errors.Is(err, errCorruptHeader) {
 			return 0, 0, []byte{0, 0}, err
 		}
 
-		// check for fragments
-		var pt uint16
-		var sz uint32
-		var msg []byte
-
-		if !fragment {
-			pt, sz, msg, err = readHeader(pkt[:size])
-			if err != nil {
-				fragment = true
-				index = copy(buf, pkt[:size])
-				continue
-			}
-			index = 0
-		} else {
-			fragment = false
-			pt, sz, msg, err = readHeader(append(buf[:index], pkt[:size]...))
-			// header is corrupted even after defragmenting
-			if err != nil {
-				return 0, 0, []byte{0, 0}, err
-			}
+		size, data, err := in.ReadPacket()
+		if err != nil {
+			return 0, 0, []byte{0, 0}, err
 		}
-		if !fragment {
-			return int(pt), int(sz), msg, nil
-		}
+		*pending = append(*pending, data[:size]...)
 	}
 }
 
@@ -85,6 +74,9 @@ func readHeader(data []byte) (packetType uint16, size uint32, packet []byte, err
 	binary.Read(r, binary.LittleEndian, &packetType)
 	r.Seek(4, io.SeekStart)
 	binary.Read(r, binary.LittleEndian, &size)
+	if size < 8 || size > maxPacketSize {
+		return packetType, size, nil, errCorruptHeader
+	}
 	if len(data) < int(size) {
 		return packetType, size, data[8:], errors.New("data incomplete, fragment received")
 	}
